@@ -434,11 +434,13 @@ def if_element(prog, chk):
     empties = 0
     empty_exits, ok_exits = set(), set()
     for x, i, s in b.all_stmts():
-        if "lhs" in s and s["lhs"][0] == 0 and not s["lhs"][1] and s["rv"].get("variant") == "Ok":
+        if "lhs" in s and s["lhs"][0] in b.ret_locals and not s["lhs"][1] and s["rv"].get("variant") == "Ok":
+            comps = R.result_components(b, s["rv"]["ops"][0])
+            if comps is None:
+                continue  # the Ok of something else (a spliced helper's result)
             ok_exits.add(x)
-            tup = b.single_def(op_place(s["rv"]["ops"][0])[0]) if op_place(s["rv"]["ops"][0]) else None
-            if tup and tup[1] != R.TERM and tup[2]["k"] == "aggr" and tup[2]["ak"] == "tuple":
-                p0, _ = R.call_origin_path(b, tup[2]["ops"][0])
+            if len(comps["events"]) == 1:
+                p0, _ = R.call_origin_path(b, comps["events"][0])
                 if p0 == "svgdx::events::OutputList::new":
                     empties += 1
                     empty_exits.add(x)
@@ -450,7 +452,10 @@ def if_element(prog, chk):
         if edges:
             fr = b.reach([edges[1]])
             false_ok = bool(fr & empty_exits) and (fr & ok_exits) <= empty_exits and not (fr & {bb for (bb, t, c) in bodies})
-    chk.ob(false_ok, "A13.if-skeleton", "IfElement:else-empty", b.where(), "when the test is zero <if> returns an empty event list", "the false path of <if> does not return an empty list")
+    if not ok_exits:
+        chk.undecided("A13.if-skeleton", "IfElement:else-empty", b.where(), "no successful exit of IfElement builds its result (events, box) in a form this rule reads")
+    else:
+      chk.ob(false_ok, "A13.if-skeleton", "IfElement:else-empty", b.where(), "when the test is zero <if> returns an empty event list", "the false path of <if> does not return an empty list")
 
 
 def condition_truth(prog, chk):
